@@ -1,6 +1,7 @@
 package engines
 
 import (
+	"bytes"
 	"encoding/hex"
 	"fmt"
 	cpcabi "github.com/EscanBE/evermint/v12/x/cpc/abi"
@@ -166,6 +167,13 @@ func newBlockFixture(t *testing.T, maxGas int64) *blockFixture {
 		cp.Block.MaxGas = maxGas
 		require.NoError(t, app.ConsensusParamsKeeper.ParamsStore.Set(ctx, cp))
 	}
+	// for every sender a funded account at a 32-byte address whose last twenty bytes are the sender's address (sequence 0): an
+	// Ethereum wrapper that names it as `From` is signed by a key that does not control it
+	for _, w := range f.senders() {
+		coins := sdk.NewCoins(sdk.NewCoin(c.evmDenom, sdkmath.NewIntFromBigInt(new(big.Int).Exp(big.NewInt(10), big.NewInt(20), nil))))
+		require.NoError(t, bk.MintCoins(ctx, minttypes.ModuleName, coins))
+		require.NoError(t, bk.SendCoinsFromModuleToAccount(ctx, minttypes.ModuleName, longFromOf(w.GetEthAddress()), coins))
+	}
 	c.setupDone()
 	return f
 }
@@ -223,6 +231,11 @@ func (f *blockFixture) appendCrossing(rng *hx.Rng, priceFloor *big.Int, ws []*it
 	f.script = nil
 	p.Count("block:crossing-pair")
 	return txs
+}
+
+// longFromOf: a 32-byte account address whose last twenty bytes are the given Ethereum address
+func longFromOf(a common.Address) sdk.AccAddress {
+	return sdk.AccAddress(append(bytes.Repeat([]byte{0x5a}, 12), a.Bytes()...))
 }
 
 // records of the verif-tag refund hook, in execution order: {gasUsedBeforeRefund, counter, applied, remaining}
@@ -292,7 +305,7 @@ func runBlocks(t *testing.T, f *blockFixture, rng *hx.Rng, p *hx.Proto, nTx int)
 			// transaction straight to a log-emitting precompile, a creation — the running log index, transaction index and
 			// cumulative gas must survive every kind of failure in between
 			f.scripted = true
-			f.script = []int{20, 75, 20, 78, 20, 72, 29, 64, 42, 20}
+			f.script = []int{192, 20, 75, 20, 78, 20, 72, 29, 64, 42, 20}
 			n = len(f.script)
 		}
 		heavy := f.maxGas > 0 && rng.Chance(1, 5) && !f.freeGas // (a block above the gas target would move the base fee off zero for good)
@@ -774,6 +787,16 @@ func (f *blockFixture) genTx(rng *hx.Rng, baseFee *big.Int, ws []*itutiltypes.Te
 		a.to = &to
 		sigClass = "unprot"
 		g.kind = "unprotected"
+	case kind == 192: // (directed) the declared sender is a funded 32-byte address ending in the signer's address
+		a.declaredFrom = longFromOf(from.GetEthAddress())
+		if a.typ == 0 || a.typ == 1 {
+			a.gasPrice = above
+		}
+		to := ws[0].GetEthAddress()
+		a.to = &to
+		a.gas = 21000
+		sigClass = "from"
+		g.kind = "from-mismatch"
 	case kind < 93:
 		a.signWith = ws[(si+1)%len(ws)]
 		to := ws[0].GetEthAddress()
